@@ -40,6 +40,9 @@ def run(ctx: Context) -> None:
     # makes the loop stop on a value no batch ever produced (alias analysis shared with C02-R7, restricted to the loss history)
     from . import c02
     ctx.rule(c02.r7_lent_arrays, ("history.losses_samp",))
+    # "does not depend on verbosity" and "the checkpoint holds the triggering batch": verbosity reaches only prints, create_checkpoint changes no calibrator state (C01-R7)
+    from . import c01
+    ctx.rule(c01.r7_non_interference, v)
 
 
 def _is_precision_test(v: CalibrateView, n) -> bool | None:
